@@ -38,6 +38,36 @@ static void gen_centered_spectral(int k, int n, int p, const double *s, double *
   free(U); free(V);
 }
 
+
+/* ---------------------------------------------------------------- reused outputs
+ * CPCAScorePredictor must give the same result whatever its OUTPUT objects held before the call.  p_super_scores is resized by
+ * the routine and every cell is assigned: compared bit for bit (NaN == NaN, -0 == +0) with the result obtained with fresh
+ * outputs (the worker threads of the MT_ kernel write disjoint slices; inline here).  p_block_scores is built with
+ * TensorAppendMatrix (one n x blocks matrix per component appended to whatever the caller passes; the library aborts by design
+ * if the tensor's last block has another number of rows): a used tensor is NOT expected to be reset, only its trailing npc
+ * blocks are compared, both "appended" and "reset and refilled" are accepted as its order, and a tensor holding block scores
+ * of another number of objects is outside the routine's domain and never passed. */
+static int m_same(const matrix *a, const matrix *b) {
+  if (a->row != b->row || a->col != b->col) return 0;
+  for (size_t i = 0; i < a->row; i++) for (size_t j = 0; j < a->col; j++) { double x = a->data[i][j], y = b->data[i][j]; if (!(x == y || (x != x && y != y))) return 0; }
+  return 1;
+}
+static matrix *m_junk(int r, int c) { matrix *m; NewMatrix(&m, (size_t)r, (size_t)c); for (int i = 0; i < r; i++) for (int j = 0; j < c; j++) m->data[i][j] = 1e3 + 7.0 * i - 3.0 * j + 0.25; return m; }
+static int t_tail_same(const tensor *t, size_t before, matrix **want, int a) {
+  if (!(t->order == (size_t)a || t->order == before + (size_t)a)) return 0;
+  for (int k = 0; k < a; k++) if (!m_same(t->m[t->order - (size_t)a + (size_t)k], want[k])) return 0;
+  return 1;
+}
+static void reuse_call(const char *cls, const char *how, const char *ctx, tensor *x, CPCAMODEL *mod, int a, int nproc, matrix *ps, tensor *pb, const matrix *wps, matrix **wpb) {
+  size_t before = pb->order; char key[96];
+  fit_begin(nproc, 0, "nonterm|CPCAScorePredictor");
+  CPCAScorePredictor(x, mod, (size_t)a, ps, pb); vx_transition(1);
+  int oks = m_same(ps, wps), okb = t_tail_same(pb, before, wpb, a);
+  snprintf(key, sizeof key, "reuse|CPCAScorePredictor|%s", cls);
+  vx_check(oks && okb, key, "%s: CPCAScorePredictor into outputs that %s: %s differ from the result with fresh outputs (super scores %zux%zu, fresh %zux%zu, max difference %g; block score tensor order %zu, %zu before the call)",
+           ctx, how, !oks ? "the super scores" : "the trailing blocks of the block scores", ps->row, ps->col, wps->row, wps->col, oks ? 0.0 : hm_maxdiff(ps, wps), pb->order, before);
+}
+
 static void body(void) {
   int nb = 2 + vx_choose("blocks-2", 3);
   const int *w = TUP[nb - 2][vx_choose("widths", NTUP[nb - 2])];
@@ -188,6 +218,31 @@ static void body(void) {
       vx_check((double)sqrtl(d2) <= tol, "project|CPCAScorePredictor|super-scores", "%d blocks n=%d scaling %d: |projected - fitted super score %d| = %.3g (allowance %.3g)", nb, n, scaling, k + 1, (double)sqrtl(d2), tol);
       vx_log("k=%d projection %.3g/%.3g\n", k + 1, (double)sqrtl(d2), tol);
     }
+    /* reused outputs.  Every execution: both objects a second time.  The predictor is the second most expensive call of an
+     * execution, so ONE other previous shape is visited per execution, in rotation over the sum of the choice indices (the two
+     * processor counts of an input, and consecutive npc, take consecutive ones): objects filled by a call with npc-1 (hand-filled
+     * n x 2 and one n x blocks matrix when npc = 1); a hand-filled super-score matrix with another number of rows; one with other
+     * numbers of rows and columns -- the latter two together with an empty block-score tensor (a tensor of another object count
+     * is outside the domain, see above) */
+    if (okshape) {
+      char ctx[96]; snprintf(ctx, sizeof ctx, "%d blocks n=%d scaling %d npc %d nproc %d", nb, n, scaling, a, nproc);
+      matrix *wps = hm_copy(ps), *wpb[NC], *q; tensor *tq; for (int k = 0; k < a; k++) wpb[k] = hm_copy(pb->m[k]);
+      reuse_call("same-shape", "hold an earlier result of the same shape", ctx, x, mod, a, nproc, ps, pb, wps, wpb);
+      int rot = (nb + ptot + n + scaling + (ratio > 0.5) + fam + nproc + a) % 3;
+      initTensor(&tq);
+      if (rot == 0) {
+        if (a > 1) { initMatrix(&q); fit_begin(nproc, 0, "nonterm|CPCAScorePredictor"); CPCAScorePredictor(x, mod, (size_t)(a - 1), q, tq); }
+        else { q = m_junk(n, a + 1); matrix *j = m_junk(n, nb); TensorAppendMatrix(tq, j); DelMatrix(&j); }
+        reuse_call("one-dim-differs", "held the result for another number of components", ctx, x, mod, a, nproc, q, tq, wps, wpb);
+      } else if (rot == 1) {
+        q = m_junk(n + 1, a);
+        reuse_call("one-dim-differs", "held super scores of another number of objects (block scores: empty tensor)", ctx, x, mod, a, nproc, q, tq, wps, wpb);
+      } else {
+        q = m_junk(n + 2, a + 3);
+        reuse_call("both-dims-differ", "held a matrix with other numbers of rows and columns (block scores: empty tensor)", ctx, x, mod, a, nproc, q, tq, wps, wpb);
+      }
+      DelMatrix(&q); DelTensor(&tq); DelMatrix(&wps); for (int k = 0; k < a; k++) DelMatrix(&wpb[k]);
+    }
     DelMatrix(&ps); DelTensor(&pb); }
 
   /* ---- second: the library's own PCA on the block-scaled concatenation (as is: already centred and scaled) */
@@ -217,7 +272,7 @@ int main(int argc, char **argv) {
   vg_seed(getenv("VERIF_SEED") ? atol(getenv("VERIF_SEED")) : 0);
   build_tuples();
   vx_describe("alphabet", "blocks 2..4, widths all tuples over {1,2,3,5,8} with total <= 12 (%d/%d/%d tuples), objects {5,8,30} [+6,13], scaling 0..5, X = U diag(ratio^i) V' (ratio .3|.6, U'1=0) scaled to min column SD 0.5 + offsets (1,-7.5,2.5,40), 1 [4] instances, npc 1..min(block width, rank), nproc {1,3}", NTUP[0], NTUP[1], NTUP[2]);
-  vx_describe("oracle", "super score k = +/- reference principal score of Z=[E_b/sqrt(w_b)] within sigma_1*(5k*delta/(1-r)^2 + rounding floor), delta=sqrt(n*1e-18); total_expvar = 100 lambda_k/trace; |w|=1; super = block scores * weights; block loadings = E_b't/t't; block scores = E_b p_b/(|p_b| sqrt w_b) (convergence allowance); block_expvar in [0,100], non-decreasing, = cumulative fraction; CPCAScorePredictor(training) = super scores; secondarily library PCA(Z) with both allowances, keyed by lambda_k<10");
+  vx_describe("oracle", "super score k = +/- reference principal score of Z=[E_b/sqrt(w_b)] within sigma_1*(5k*delta/(1-r)^2 + rounding floor), delta=sqrt(n*1e-18); total_expvar = 100 lambda_k/trace; |w|=1; super = block scores * weights; block loadings = E_b't/t't; block scores = E_b p_b/(|p_b| sqrt w_b) (convergence allowance); block_expvar in [0,100], non-decreasing, = cumulative fraction; CPCAScorePredictor(training) = super scores; CPCAScorePredictor into reused outputs (same shape, one or both dimensions different) = result with fresh outputs, bit for bit (block scores: trailing blocks, append convention); secondarily library PCA(Z) with both allowances, keyed by lambda_k<10");
   vx_set_shard_depth(2);
   vx_expect_outcomes(40);   /* low on purpose: a library that returns the same (e.g. all-zero) model for every input of a shape must surface as violations, not as a vacuity error */
   return vx_main(argc, argv, "C09", body);
